@@ -3,7 +3,13 @@
 // Runs the REAL client of both stacks against every impostor of the property's catalogue and
 // writes one line per connection:
 //
-//	stack=.. suite=.. scen=.. skip=0|1 peer=real|script <verdict vector> => client=completed|failed(<class>) resumed=0|1 hs_complete=0|1 read=<n>
+//	stack=.. suite=.. scen=.. skip=0|1 [cb=<p><c>] peer=real|script <verdict vector> => client=completed|failed(<class>) resumed=0|1 hs_complete=0|1 read=<n>
+//
+// `cb`: the optional user callbacks of the client's Config — VerifyPeerCertificate <p> and
+// VerifyConnection <c>, each `-` (nil), `a` (installed, accepts everything: the callback of an
+// application that adds a policy of its own and has no objection) or `r` (installed, refuses).
+// Omitted when neither is installed.  The property gives a callback no power to excuse anything:
+// the verdict vector, and with it the spec's judgement, is the same whatever the callbacks say.
 //
 // The verdict vector is computed by the driver with the real libraries from what went over
 // the wire and from the scenario's construction — never by asking the client:
@@ -264,10 +270,50 @@ func historyByName(n string) (history, bool) {
 type caseDesc struct {
 	stack, suite, scen string
 	skip               bool
+	cb                 string // "" = "--": no callback installed
 }
 
 func (c caseDesc) key() string {
-	return fmt.Sprintf("stack=%s suite=%s scen=%s skip=%s", c.stack, c.suite, c.scen, b01(c.skip))
+	k := fmt.Sprintf("stack=%s suite=%s scen=%s skip=%s", c.stack, c.suite, c.scen, b01(c.skip))
+	if c.cb != "" && c.cb != "--" {
+		k += " cb=" + c.cb
+	}
+	return k
+}
+
+// callback configurations of the client: VerifyPeerCertificate x VerifyConnection, each
+// not installed / accepting / refusing ("--" is the plain case).
+var cbAll = []string{"a-", "-a", "aa", "r-", "-r", "ar", "ra", "rr"}
+
+func validCB(cb string) bool {
+	if cb == "" {
+		return true
+	}
+	return len(cb) == 2 && strings.ContainsRune("-ar", rune(cb[0])) && strings.ContainsRune("-ar", rune(cb[1]))
+}
+
+// the errors the driver's refusing callbacks return
+const (
+	errVPC = "c02-callback VerifyPeerCertificate refuses"
+	errVC  = "c02-callback VerifyConnection refuses"
+)
+
+// cbFuncs: the two callbacks as plain functions (nil = not installed); the stack files wrap them
+// into the Config's types.
+func cbFuncs(cb string) (vpc, vc func() error) {
+	mk := func(ch byte, msg string) func() error {
+		switch ch {
+		case 'a':
+			return func() error { return nil }
+		case 'r':
+			return func() error { return errors.New(msg) }
+		}
+		return nil
+	}
+	if len(cb) != 2 {
+		return nil, nil
+	}
+	return mk(cb[0], errVPC), mk(cb[1], errVC)
 }
 
 func b01(b bool) string {
@@ -331,6 +377,10 @@ func classify(err error, panicked string) string {
 	}
 	s := err.Error()
 	switch {
+	case strings.Contains(s, errVPC):
+		return "verify-peer-certificate"
+	case strings.Contains(s, errVC):
+		return "verify-connection"
 	case strings.Contains(s, "failed to parse certificate"):
 		return "certificate-parse"
 	case strings.Contains(s, "need two of certificate"):
@@ -481,7 +531,8 @@ type clientCfg struct {
 	tweak clientTweak
 	suite uint16
 	certs []keyPair
-	cache any // tlcp.SessionCache / dtlcp.SessionCache
+	cache any    // tlcp.SessionCache / dtlcp.SessionCache
+	cb    string // user callbacks (see cbFuncs)
 }
 
 type serverCfg struct {
@@ -784,7 +835,7 @@ func runScenario(cd caseDesc, sc scenario, su suiteInfo) (verdicts, observation,
 	if sc.cname != "" {
 		tw.name = sc.cname
 	}
-	cc := clientCfg{tweak: tw, suite: su.id, certs: clientCerts(su)}
+	cc := clientCfg{tweak: tw, suite: su.id, certs: clientCerts(su), cb: cd.cb}
 	scfg := serverCfg{suite: su.id, certs: keyPairs(sc.chain, sc.sigKey, sc.encKey)}
 	signer := ""
 	if len(sc.chain) > 0 {
@@ -945,7 +996,7 @@ func runHistory(cd caseDesc, h history, su suiteInfo) (verdicts, observation, bo
 		}
 		v.sess = fmt.Sprintf("%d:%s:%s", len(ders), b01(cs), b01(ce))
 	}
-	r := runReal(newLink(cd.stack), clientCfg{tweak: h.second, suite: su.id, certs: clientCerts(su), cache: ccache}, scfg)
+	r := runReal(newLink(cd.stack), clientCfg{tweak: h.second, suite: su.id, certs: clientCerts(su), cache: ccache, cb: cd.cb}, scfg)
 	signer := h.chain[0]
 	ts := truthSKX{signer: signer, scr: "this", ssr: "this", intact: true, sparams: h.chain[1]}
 	if su.ecdhe {
@@ -1035,7 +1086,7 @@ func runResumeImpostor(cd caseDesc, ev, peer string, su suiteInfo) (verdicts, ob
 		plan.afterHello = rc.evictAll
 	}
 	rc.resetStats()
-	r, so := runScript(lk, clientCfg{tweak: tw, suite: su.id, certs: clientCerts(su), cache: cache},
+	r, so := runScript(lk, clientCfg{tweak: tw, suite: su.id, certs: clientCerts(su), cache: cache, cb: cd.cb},
 		serverCfg{suite: su.id, certs: keyPairs(chain, "", "")}, plan)
 	// the cached session as the client's lookup saw it
 	hit, fired := rc.stats()
@@ -1073,7 +1124,10 @@ func (cryptoRand) Read(p []byte) (int, error) { return randRead(p) }
 func enumerate(o hx.Opts) []caseDesc {
 	var out []caseDesc
 	add := func(stack, suite, scen string, skip bool) {
-		out = append(out, caseDesc{stack, suite, scen, skip})
+		out = append(out, caseDesc{stack, suite, scen, skip, ""})
+	}
+	addCB := func(stack, suite, scen string, skip bool, cb string) {
+		out = append(out, caseDesc{stack, suite, scen, skip, cb})
 	}
 	// documented witnesses first: F13 (resumption without re-validation), F1 (ServerKeyExchange omitted)
 	for _, st := range []string{"tlcp", "dtlcp"} {
@@ -1104,6 +1158,34 @@ func enumerate(o hx.Opts) []caseDesc {
 			}
 		}
 	}
+	// the same catalogue under every configuration of the user callbacks: a client that installs
+	// VerifyPeerCertificate / VerifyConnection (accepting or refusing) on top of verification on / off
+	for _, st := range []string{"tlcp", "dtlcp"} {
+		for _, su := range suites {
+			for _, sc := range catalogue {
+				if (sc.only == "ecc" && su.ecdhe) || (sc.only == "ecdhe" && !su.ecdhe) {
+					continue
+				}
+				for _, skip := range []bool{false, true} {
+					for _, cb := range cbAll {
+						addCB(st, su.name, sc.name, skip, cb)
+					}
+				}
+			}
+			for _, cb := range cbAll {
+				for _, h := range histories {
+					addCB(st, su.name, "hist:"+h.name, h.second.skip, cb)
+				}
+				for _, ev := range rimpEvents {
+					for _, pr := range rimpPeers {
+						for _, skip := range []bool{false, true} {
+							addCB(st, su.name, "rimp:"+ev+"/"+pr, skip, cb)
+						}
+					}
+				}
+			}
+		}
+	}
 	if o.Tier == "thorough" {
 		// every pair of client configurations over five server identities, all suites, both stacks
 		for _, st := range []string{"tlcp", "dtlcp"} {
@@ -1129,7 +1211,8 @@ func parseCase(desc string) (caseDesc, bool) {
 	c.scen, ok3 = hx.KV(desc, "scen")
 	s, _ := hx.KV(desc, "skip")
 	c.skip = s == "1"
-	return c, ok1 && ok2 && ok3
+	c.cb, _ = hx.KV(desc, "cb")
+	return c, ok1 && ok2 && ok3 && validCB(c.cb)
 }
 
 type outLine struct {
